@@ -134,7 +134,7 @@ func fixedScenarios() []Scenario {
 
 var sampleTables = map[string]bool{"samples_v3": true, "tempo_traces": true, "metrics_15s": true, "profiles": true}
 var indexTables = map[string]bool{"time_series": true, "time_series_gin": true, "tempo_traces_attrs_gin": true, "tempo_traces_kv": true,
-	"profiles_series": true, "profiles_series_gin": true, "profiles_series_keys": true}
+								"profiles_series": true, "profiles_series_gin": true, "profiles_series_keys": true}
 var metaTables = map[string]bool{"ver": true, "settings": true} // bookkeeping, not data
 
 type want struct {
@@ -563,7 +563,7 @@ func evalScenario(sc Scenario) *result {
 			return res
 		}
 		for _, m := range rr.markers {
-			v(m.Table+"/"+m.Rule, func() string { return m.Desc()+" — uninterrupted run, "+cfg.String() }, rcRef)
+			v(m.Table+"/"+m.Rule, func() string { return m.Desc() + " — uninterrupted run, " + cfg.String() }, rcRef)
 		}
 		// (1) the state after a complete run equals the configuration
 		refFind, und := checkState(ref, cfg)
@@ -573,7 +573,9 @@ func evalScenario(sc Scenario) *result {
 			if f.Rule == "tier-overflow-int32" {
 				sig = "ttl_policy/" + f.Rule // one code path (rotateTables) for every table
 			}
-			v(sig, func() string { return f.Desc()+fmt.Sprintf(" — after an uninterrupted Update+Rotate (step %d of the scenario)", step) }, rcRef)
+			v(sig, func() string {
+				return f.Desc() + fmt.Sprintf(" — after an uninterrupted Update+Rotate (step %d of the scenario)", step)
+			}, rcRef)
 		}
 		refCanon := ref.Canon()
 		// (2) unchanged configuration: no ALTER
@@ -583,7 +585,9 @@ func evalScenario(sc Scenario) *result {
 			v("rotate/rerun-fails", func() string { return fmt.Sprintf("second Rotate with unchanged %s fails: %v", cfg, again.err) }, rcRef)
 		}
 		for _, a := range uniq(again.alters) {
-			v(a+"/rerun-alter", func() string { return fmt.Sprintf("a second run with unchanged configuration %s issued %d ALTER statement(s), among them for setting '%s'", cfg, len(again.alters), a) }, rcRef)
+			v(a+"/rerun-alter", func() string {
+				return fmt.Sprintf("a second run with unchanged configuration %s issued %d ALTER statement(s), among them for setting '%s'", cfg, len(again.alters), a)
+			}, rcRef)
 		}
 		if len(again.alters) == 0 {
 			res.events["reruns_without_alter"]++
@@ -636,7 +640,7 @@ func evalScenario(sc Scenario) *result {
 					return fmt.Sprintf(" — %s, step %d, configuration %s, fault %s in the section of setting '%s'", depl, step, cfg, f.String(), fr.cur)
 				}
 				for _, m := range fr.markers {
-					v(m.Table+"/"+m.Rule, func() string { return m.Desc()+ctx() }, rc)
+					v(m.Table+"/"+m.Rule, func() string { return m.Desc() + ctx() }, rc)
 				}
 				// (3a) the next run with the same configuration completes the work
 				rs := fs.Clone()
@@ -645,17 +649,19 @@ func evalScenario(sc Scenario) *result {
 				res.events["markers_written_after_alters_of_same_run"] += r2.inRun
 				res.events["markers_justified_by_alters_of_interrupted_run"] += r2.earlier
 				for _, m := range r2.markers {
-					v(m.Table+"/"+m.Rule, func() string { return m.Desc()+" (restart)"+ctx() }, rc)
+					v(m.Table+"/"+m.Rule, func() string { return m.Desc() + " (restart)" + ctx() }, rc)
 				}
 				if r2.err != nil {
-					v(fr.cur+"/restart-fails", func() string { return fmt.Sprintf("the run after the interrupted one fails: %v", r2.err)+ctx() }, rc)
+					v(fr.cur+"/restart-fails", func() string { return fmt.Sprintf("the run after the interrupted one fails: %v", r2.err) + ctx() }, rc)
 				} else {
 					if c2 := rs.Canon(); c2 != refCanon {
 						d := cat.Diff(refCanon, c2)
 						if len(d) > 4 {
 							d = d[:4]
 						}
-						v(fr.cur+"/restart-diverges", func() string { return "after interruption and restart the state differs from the uninterrupted run's: "+strings.Join(d, " || ")+ctx() }, rc)
+						v(fr.cur+"/restart-diverges", func() string {
+							return "after interruption and restart the state differs from the uninterrupted run's: " + strings.Join(d, " || ") + ctx()
+						}, rc)
 					} else {
 						res.events["restarts_converged"]++
 					}
@@ -663,7 +669,9 @@ func evalScenario(sc Scenario) *result {
 					res.events["rotate_runs"]++
 					if a := strings.Join(r3.alters, ","); a != rerunAlters {
 						for _, x := range uniq(r3.alters) {
-							v(x+"/rerun-alter-after-restart", func() string { return fmt.Sprintf("after interruption and restart a further run with unchanged configuration issued ALTERs for %v (an uninterrupted history gives [%s])", r3.alters, rerunAlters)+ctx() }, rc)
+							v(x+"/rerun-alter-after-restart", func() string {
+								return fmt.Sprintf("after interruption and restart a further run with unchanged configuration issued ALTERs for %v (an uninterrupted history gives [%s])", r3.alters, rerunAlters) + ctx()
+							}, rc)
 						}
 					}
 				}
@@ -676,11 +684,13 @@ func evalScenario(sc Scenario) *result {
 					res.events["interrupted_then_changed"]++
 					rc.Then = "next configuration"
 					if r4.err != nil {
-						v(fr.cur+"/restart-fails", func() string { return fmt.Sprintf("the run with the next configuration %s after the interrupted one fails: %v", next, r4.err)+ctx() }, rc)
+						v(fr.cur+"/restart-fails", func() string {
+							return fmt.Sprintf("the run with the next configuration %s after the interrupted one fails: %v", next, r4.err) + ctx()
+						}, rc)
 						continue
 					}
 					for _, m := range r4.markers {
-						v(m.Table+"/"+m.Rule, func() string { return m.Desc()+" (next configuration)"+ctx() }, rc)
+						v(m.Table+"/"+m.Rule, func() string { return m.Desc() + " (next configuration)" + ctx() }, rc)
 					}
 					nf, _ := checkState(ns, next)
 					for _, x := range nf {
